@@ -692,3 +692,68 @@ Definition trim_site_outcome (buildf sitef : list string) (call_tree : bool) (fm
     if built_as_tree buildf call_tree fmt then Ok tt
     else if two_callers then Panic "TrimTree only works on trees" else Ok tt
   else Ok tt.
+
+(* ------------------------------------------------------------------ path/filepath on Unix (lexical)
+   Clean, Join, Base, Dir as locateBinaries uses them; byte-wise, '/' is the only separator. *)
+Definition is_slash (a : ascii) : bool := N.eqb (byte_of a) 47.
+
+Fixpoint split_slash_acc (s cur : string) : list string :=
+  match s with
+  | EmptyString => [rev_string cur]
+  | String a r => if is_slash a then rev_string cur :: split_slash_acc r EmptyString
+                  else split_slash_acc r (String a cur)
+  end.
+Definition split_slash (s : string) : list string := split_slash_acc s EmptyString.
+
+(* the element stack of Clean (top first): "" and "." vanish, ".." removes the element before it --
+   except at the root (dropped) and at the start of a relative path (kept) *)
+Fixpoint clean_elems (rooted : bool) (els : list string) (stack : list string) : list string :=
+  match els with
+  | [] => rev stack
+  | e :: r =>
+      if String.eqb e "" || String.eqb e "." then clean_elems rooted r stack
+      else if String.eqb e ".." then
+        match stack with
+        | [] => if rooted then clean_elems rooted r [] else clean_elems rooted r [".."]
+        | top :: rest => if String.eqb top ".." then clean_elems rooted r (".." :: stack)
+                         else clean_elems rooted r rest
+        end
+      else clean_elems rooted r (e :: stack)
+  end.
+
+Definition path_clean (p : string) : string :=
+  match p with
+  | EmptyString => "."
+  | String a _ =>
+      let rooted := is_slash a in
+      let body := concat_with "/" (clean_elems rooted (split_slash p) []) in
+      if rooted then "/" ++ body else if String.eqb body "" then "." else body
+  end.
+
+(* filepath.Join: empty elements before the first non-empty one are dropped, the rest joined and cleaned *)
+Fixpoint path_join (elems : list string) : string :=
+  match elems with
+  | [] => ""
+  | e :: r => if String.eqb e "" then path_join r else path_clean (concat_with "/" elems)
+  end.
+
+Definition not_slash (a : ascii) : bool := negb (is_slash a).
+
+Definition path_base (p : string) : string :=
+  match p with
+  | EmptyString => "."
+  | _ =>
+      let b := rev_string (fst (span not_slash (drop_while is_slash (rev_string p)))) in
+      if String.eqb b "" then "/" else b
+  end.
+
+Definition path_dir (p : string) : string :=
+  path_clean (rev_string (snd (span not_slash (rev_string p)))).
+
+(* ------------------------------------------------------------------ F38: divide_by whose reciprocal overflows
+   driver.reportOptions rejects divide_by = 0 only; report.Options.Ratio = 1/divide_by is +Inf in float64 for a
+   positive divisor below 2^-1024 (subnormal), stacks.go:89 multiplies the flame graph's Scale by it and
+   json.Marshal refuses +Inf: the /flamegraph handler answers 500 "error serializing stacks".
+   Decidable class predicate on the exact value (num # den) of the divisor. *)
+Definition reciprocal_overflows (num den : Z) : bool :=
+  (0 <? num) && (0 <? den) && (num * 2 ^ 1024 <? den).
